@@ -232,7 +232,12 @@ class PopenExecutor(concurrent.futures.Executor):
 
         # submitting new futures after join() would be bad,
         # so we make this internal and only call it from shutdown()
-        for future in list(self._futures):
+        # take the snapshot under the lock: submit() checks the shutdown flag, registers and starts a future
+        # under the same lock, so a submit() that passed the check before the flag was set is complete by now
+        with self._lock:
+            futures = list(self._futures)
+
+        for future in futures:
             # wait for every future, whatever the outcome of the others
             with contextlib.suppress(Exception):
                 future.result()
